@@ -2,6 +2,7 @@ import Deb822Verif.Props.C07Ctl
 import Deb822Verif.Props.C07Comments
 import Deb822Verif.Props.C07Trigger
 import Deb822Verif.Lemmas.DebWrapIndentText
+import Deb822Verif.Lemmas.DebWrapRereadIdem
 /-!
 # C07 — additions after the audit of the property (audit report `logs/audit_C07.md`)
 
@@ -17,7 +18,8 @@ import Deb822Verif.Lemmas.DebWrapIndentText
 * **D3, indentation at text level** (`C07_indent_text`).
 * **D1, a CR inside a value on the formatter path** (`C07_cr_formatter_witness`): outside the domain
   (LF documents); the model reproduces what the code does.
-* **idempotence through the printed form** (`C07_reread_idempotent`).
+* **idempotence through the printed form** (`C07_reread_idempotent`): no formatter, `DocS.WF`, for a
+  paragraph comparator that looks at the fields of the paragraphs only (`ParaInv`).
 -/
 set_option linter.unusedSimpArgs false
 set_option linter.unusedVariables false
@@ -556,5 +558,84 @@ theorem C07_cr_formatter_witness :
           = some "Source: s\nDescription: b\r  c\n".toList := by
   refine ⟨by decide +kernel, by decide +kernel, by decide +kernel, by decide +kernel, by decide +kernel,
     by decide +kernel, by decide +kernel, by decide +kernel⟩
+
+/-! ## idempotence through the printed form (no formatter) -/
+
+open Spec in
+/-- **reformatting again changes nothing — also after printing and re-reading** (no formatter; every
+    indentation of at least one column, empty-first-line setting and width limit; entry and paragraph
+    comparators absent or total preorders).  Take the tree of any well-formed document (`DocS.WF`, the
+    C03 grammar).  wrap-and-sort returns `root'`; its printed text parses without error; wrap-and-sort
+    of THE RE-READ TREE succeeds and prints exactly the same text.
+
+    The re-read tree is not `root'` (comment lines in front of the first field of a paragraph are inside
+    the PARAGRAPH node of `root'` and at top level after re-reading; those behind the last paragraph
+    the other way round), so this does not follow from `C07_idempotent_doc`.  Hypothesis on the
+    paragraph comparator: it depends on the fields of the two paragraphs only (`ParaInv` — true of
+    every comparator that looks at `Paragraph::get` values; a comparator that looks at the comments
+    inside the paragraph node can tell the two trees apart). -/
+theorem C07_reread_idempotent (cfg : WrapCfg) (ele ple : Option (DNode → DNode → Bool))
+    (hele : OrderOK ele) (hple : OrderOK ple) (hinv : ParaInv ple)
+    (d : DocS) (hwf : d.WF) (hc : IndentOK cfg) :
+    ∃ root' root'' : DNode,
+      deb822Wrap ple (some (paragraphWrap cfg ele none)) d.tree = some root'
+      ∧ (parse root'.text).errors = []
+      ∧ deb822Wrap ple (some (paragraphWrap cfg ele none)) (parse root'.text).tree = some root''
+      ∧ root''.text = root'.text := by
+  obtain ⟨root', d', root'', h1, hd', htext, h2, h3⟩ :=
+    deb822Wrap_reread_idem cfg ele ple hele hple hinv d hwf hc
+  have hparse : parse root'.text = ⟨d'.tree, []⟩ := by
+    rw [htext]; unfold parse; rw [lex_doc d' hd', parse_doc d' hd']
+  exact ⟨root', root'', h1, by rw [hparse], by rw [hparse]; exact h2, h3⟩
+
+/-- a comparator on a field value depends on the fields only: the example order of `Props/C07.lean`
+    (by the first character of `Package`) -/
+theorem paraInv_rank : ParaInv (some (C07.rankOrder C07.exPkgRank)) := by
+  intro f hf
+  cases hf
+  intro a a' b b' ha hb
+  have e : ∀ x y : DNode, entries x = entries y → C07.exPkgRank x = C07.exPkgRank y := by
+    intro x y h; simp only [C07.exPkgRank, Deb.get, h]
+  simp only [C07.rankOrder, e a a' ha, e b b' hb]
+
+theorem paraInv_none : ParaInv none := by intro f hf; cases hf
+
+/-- the hypotheses of `C07_reread_idempotent` are satisfiable: the example document of `C07_reread`
+    (comments before / between / after paragraphs, several blank lines, no final newline), both
+    example comparators -/
+example : OrderOK (some (C07.rankOrder C07.exKeyRank)) ∧ OrderOK (some (C07.rankOrder C07.exPkgRank))
+    ∧ ParaInv (some (C07.rankOrder C07.exPkgRank)) ∧ C07.exDocS.WF ∧ IndentOK C07.exCfg :=
+  ⟨C07.rankOrder_ok _, C07.rankOrder_ok _, paraInv_rank, by decide, by simp [IndentOK, C07.exCfg]⟩
+
+example : ∃ root' root'' : DNode,
+    deb822Wrap (some (C07.rankOrder C07.exPkgRank)) (some (paragraphWrap C07.exCfg (some (C07.rankOrder C07.exKeyRank)) none))
+        C07.exDocS.tree = some root'
+      ∧ (parse root'.text).errors = []
+      ∧ deb822Wrap (some (C07.rankOrder C07.exPkgRank)) (some (paragraphWrap C07.exCfg (some (C07.rankOrder C07.exKeyRank)) none))
+          (parse root'.text).tree = some root''
+      ∧ root''.text = root'.text :=
+  C07_reread_idempotent _ _ _ (C07.rankOrder_ok _) (C07.rankOrder_ok _) paraInv_rank C07.exDocS (by decide)
+    (by simp [IndentOK, C07.exCfg])
+
+/-- non-vacuity of `C07_indent_text` on the closed instance -/
+example : entryKey exJoin = some "A".toList ∧ Ctl.fmtArg exJoin = some " a, b, c".toList
+    ∧ '\r' ∉ fmtJoinSp "A".toList " a, b, c".toList := by
+  refine ⟨by decide +kernel, by decide +kernel, by decide +kernel⟩
+
+/-- non-vacuity of `C07_indent_text_nofmt` and `C07_control_para_panic_iff`: the example field /
+    paragraph of `Props/C07.lean` -/
+example : C07.exHomepage.WF ∧ C07.exHomepage.Term true ∧ IndentOK C07.exCfg :=
+  ⟨by decide, by decide, by simp [IndentOK, C07.exCfg]⟩
+
+/-- the source paragraph of `exOddOp` -/
+def exOddPara : ParaS :=
+  { first := { key := "Source".toList, ws := [' '], v := "s".toList, nl := true, conts := [] },
+    rest := [.entry { key := "Build-Depends".toList, ws := [' '], v := "a (> 1)".toList, nl := true, conts := [] }] }
+
+example : exOddPara.WF ∧ exOddPara.Term false ∧ IndentOK exCfgM ∧ paraWrap exCfgM exOddPara.node = none
+    ∧ ∃ e ∈ paraEntries exOddPara, FieldPanics e.key (rawText e) := by
+  have h : paraWrap exCfgM exOddPara.node = none := by decide +kernel
+  exact ⟨by decide, by decide, by simp [IndentOK, exCfgM], h,
+    (C07_control_para_panic_iff exCfgM exOddPara false (by decide) (by decide) (by simp [IndentOK, exCfgM])).1 h⟩
 
 end Deb822Verif.Props.C07More
